@@ -20,6 +20,7 @@ RULE = ("Generated training runs: n 2..5, N 1..12 rows (duplicates forced with p
         "N = mB + r with r>0 and m>=1, >= 2 epochs, and (with bases) >= 2 distinct basis strings.")
 RULE_EXT = ('Extended as built: N 101-260 and 1025-1200, default batch sizes by omission, numpy integer sizes, data as float32 / int64 / list containers, the all-Z row placed last.')
 RULE_EXT += ' Round 10 (after an exception / long time axis): a fit() on OTHER data aborted by an exception before the verified run; runs of 33-40 epochs.'
+RULE_EXT += ' Round 11 (re-entrant use / feature interactions): a busy callback (evaluation, gradients, sampling, statistics, a fit of another state from inside every hook) in 1 run of 4.'
 RULE = RULE + " " + RULE_EXT
 ASSUMPTIONS = ["bases passed as numpy arrays of single-character strings (the documented type)",
                "for n > 3 with bases the wrapper returns zero gradients instead of calling the real gradient code (labelled 'stub_grad')",
